@@ -157,15 +157,67 @@ def build():
                                 pre='    type Value = BitSetAnd<<<Self as Split>::Left as BitAnd>::Value, <<Self as Split>::Right as BitAnd>::Value>;\n    spec fn and_view(&self) -> Set<u32> { self.0.bview().intersect(self.1.bview().intersect(self.2.bview())) }\n')
     u.fn(X, ['mod join', 'mod bit_and', 'impl<A, B, C> BitAnd for (A, B, C)', 'fn and'], props='C06', group='bitand_3', key='BitAnd(A,B,C)::and',
          hint_obligations=[E('trait.and.view', 'the combined mask of a triple is the intersection of the member masks', 'C06')])
-    for (ar, gen, tup, pre_file, n17, masks) in [
-            (2, 'A, B', '(A, B)', 'tuple2.rs', N17_2, '(<A as Join>::Mask, <B as Join>::Mask)'),
-            (3, 'A, B, C', '(A, B, C)', 'tuple3.rs', N17_3, '(<A as Join>::Mask, <B as Join>::Mask, <C as Join>::Mask)')]:
-        bounds = ', '.join('%s: Join' % g for g in gen.split(', '))
-        hdr = 'unsafe impl<%s> Join for %s where %s, %s: BitAnd,' % (gen, tup, bounds, masks)
-        pre = open(os.path.join(_here, 'members', pre_file)).read()
-        u.groups['j_tuple%d' % ar] = dict(header=hdr, pre=pre, private=False)
-        for f in ('open', 'get', 'is_unconstrained'):
-            labels = dict(open=['mask', 'pre'], get=['item', 'keeps'], is_unconstrained=[])[f]
-            u.fn(X, ['mod join', 'impl<%s> Join for %s' % (gen, tup), 'fn ' + f], props='C06', group='j_tuple%d' % ar, key='j_tuple%d::%s' % (ar, f), rules=n17,
-                 hint_obligations=[E('trait.%s.%s' % (f, l), 'inherited postcondition of Join::%s (%s) for the %d-tuple' % (f, l, ar), 'C06') for l in labels])
+    # bit-set members (define_bit_join!): the set itself is the mask, the item is the index
+    BITPRE = '''    type Type = Index;
+    type Value = ();
+    type Mask = %s;
+    spec fn jmask(&self) -> Set<u32> { self.bview() }
+    spec fn open_pre(&self) -> bool { true }
+    spec fn get_pre(v: &Self::Value, id: Index) -> bool { true }
+    spec fn get_post(ov: &Self::Value, id: Index, r: &Self::Type, nv: &Self::Value) -> bool { *r == id }
+'''
+    N9U = [('N9', r'\(_: &mut Self::Value, id: Index\)', '(_v: &mut Self::Value, id: Index)'),
+           ('N9', r"\(_: &'next mut Self::Value, id: Index\)", "(_v: &'next mut Self::Value, id: Index)"),
+           ('N8', r"<Self as LendJoinඞType<'next>>::T", 'Self::Type')]
+    for (nm, gen, ty, bound) in [('bitset', '', 'BitSet', ''), ('bitset_ref', "'a", "&'a BitSet", ''),
+                                 ('bitset_not', 'A', 'BitSetNot<A>', 'A: BitSetLike'), ('bitset_and', 'A, B', 'BitSetAnd<A, B>', 'A: BitSetLike, B: BitSetLike'),
+                                 ('bitset_or', 'A, B', 'BitSetOr<A, B>', 'A: BitSetLike, B: BitSetLike')]:
+        for trait in ('Join', 'LendJoin'):
+            t = 'j' if trait == 'Join' else 'lj'
+            g = '<%s>' % gen if gen else ''
+            hdr = 'unsafe impl%s %s for %s%s' % (g, trait, ty, (' where ' + bound + ',') if bound else '')
+            gname = '%s_%s' % (t, nm)
+            u.groups[gname] = dict(header=hdr, pre=BITPRE % ty, private=False)
+            tl = 'trait.' + ('lend_' if trait == 'LendJoin' else '')
+            for f in ('open', 'get'):
+                labels = ['mask', 'pre'] if f == 'open' else ['item', 'keeps']
+                u.fn(X, ['mod bitset', 'impl%s %s for %s' % (g, trait, ty), 'fn ' + f], props='C06', group=gname, key='%s::%s' % (gname, f), rules=N9U,
+                     hint_obligations=[E('%s%s.%s' % (tl, f, l), 'inherited postcondition of %s::%s (%s) for the bit-set member %s' % (trait, f, l, ty), 'C06') for l in labels])
+    LET = 'ABCD'
+    def tuple_pre(n, trait):
+        ls = LET[:n]
+        tys = ', '.join('%s::Type' % l for l in ls) + (',' if n == 1 else '')
+        vals = ', '.join('%s::Value' % l for l in ls) + (',' if n == 1 else '')
+        masks = ', '.join('%s::Mask' % l for l in ls) + (',' if n == 1 else '')
+        jm = 'self.%d.jmask()' % (n - 1)
+        for k in range(n - 2, -1, -1):
+            jm = 'self.%d.jmask().intersect(%s)' % (k, jm)
+        return ('    type Type = (%s);\n    type Value = (%s);\n    type Mask = <(%s) as BitAnd>::Value;\n' % (tys, vals, masks) +
+                '    // the joined mask of a tuple is the intersection of the member masks; get is per-member get at the same index\n' +
+                '    spec fn jmask(&self) -> Set<u32> { %s }\n' % jm +
+                '    spec fn open_pre(&self) -> bool { %s }\n' % ' && '.join('self.%d.open_pre()' % k for k in range(n)) +
+                '    spec fn get_pre(v: &Self::Value, id: Index) -> bool { %s }\n' % ' && '.join('%s::get_pre(&v.%d, id)' % (ls[k], k) for k in range(n)) +
+                '    spec fn get_post(ov: &Self::Value, id: Index, r: &Self::Type, nv: &Self::Value) -> bool { %s }\n' % ' && '.join('%s::get_post(&ov.%d, id, &r.%d, &nv.%d)' % (ls[k], k, k, k) for k in range(n)))
+    for n in (1, 2, 3, 4):
+        ls = LET[:n]
+        gen = ', '.join(ls)
+        tup = '(%s%s)' % (gen, ',' if n == 1 else '')
+        n17 = [('N17', r'let &mut \(' + ', '.join('ref mut %s' % l for l in ls) + (',' if n == 1 else '') + r'\) = v;',
+                ' '.join('let %s = &mut v.%d;' % (l, k) for k, l in enumerate(ls))),
+               ('N8', r"<Self as LendJoinඞType<'next>>::T", 'Self::Type')]
+        for trait in ('Join', 'LendJoin'):
+            t = 'j' if trait == 'Join' else 'lj'
+            masks = '(%s%s)' % (', '.join('<%s as %s>::Mask' % (l, trait) for l in ls), ',' if n == 1 else '')
+            hdr = 'unsafe impl<%s> %s for %s where %s, %s: BitAnd,' % (gen, trait, tup, ', '.join('%s: %s' % (l, trait) for l in ls), masks)
+            gname = '%s_tuple%d' % (t, n)
+            u.groups[gname] = dict(header=hdr, pre=tuple_pre(n, trait), private=False)
+            tl = 'trait.' + ('lend_' if trait == 'LendJoin' else '')
+            for f in ('open', 'get', 'is_unconstrained'):
+                labels = dict(open=['mask', 'pre'], get=['item', 'keeps'], is_unconstrained=[])[f]
+                u.fn(X, ['mod join', 'impl<%s> %s for %s' % (gen, trait, tup), 'fn ' + f], props='C06', group=gname, key='%s::%s' % (gname, f), rules=n17,
+                     hint_obligations=[E('%s%s.%s' % (tl, f, l), 'inherited postcondition of %s::%s (%s) for the %d-tuple' % (trait, f, l, n), 'C06') for l in labels])
+    u.groups['bitand_4'] = dict(header='impl<A, B, C, D> BitAnd for (A, B, C, D) where A: BitSetLike, B: BitSetLike, C: BitSetLike, D: BitSetLike,', private=False,
+                                pre='    type Value = BitSetAnd<<<Self as Split>::Left as BitAnd>::Value, <<Self as Split>::Right as BitAnd>::Value>;\n    spec fn and_view(&self) -> Set<u32> { self.0.bview().intersect(self.1.bview().intersect(self.2.bview().intersect(self.3.bview()))) }\n')
+    u.fn(X, ['mod join', 'mod bit_and', 'impl<A, B, C, D> BitAnd for (A, B, C, D)', 'fn and'], props='C06', group='bitand_4', key='BitAnd(A,B,C,D)::and',
+         hint_obligations=[E('trait.and.view', 'the combined mask of a 4-tuple is the intersection of the member masks', 'C06')])
     return u
